@@ -755,6 +755,11 @@ func (e *Engine) MessageReceived(ctx context.Context, p peer.ID, m bsmsg.BitSwap
 	e.lock.Lock()
 
 	if m.Full() {
+		// A full wantlist replaces the previous one: drop the old wants and
+		// the tasks still queued for them.
+		for _, w := range e.peerLedger.WantlistForPeer(p) {
+			e.peerRequestQueue.Remove(w.Cid, p)
+		}
 		e.peerLedger.ClearPeerWantlist(p)
 	}
 
